@@ -13,7 +13,7 @@ TAG = dict(array_type=0x01, class_type=0x02, enumeration_type=0x04, formal_param
            unspecified_parameters=0x18, variant=0x19, inlined_subroutine=0x1d, subrange_type=0x21, base_type=0x24,
            const_type=0x26, enumerator=0x28, subprogram=0x2e, template_value_parameter=0x30, variable=0x34,
            volatile_type=0x35, namespace=0x39, imported_unit=0x3d, partial_unit=0x3c, unspecified_type=0x3b,
-           template_type_parameter=0x2f, restrict_type=0x37)
+           template_type_parameter=0x2f, restrict_type=0x37, type_unit=0x41, skeleton_unit=0x4a)
 AT = dict(sibling=0x01, location=0x02, name=0x03, ordering=0x09, byte_size=0x0b, bit_size=0x0d, stmt_list=0x10,
           low_pc=0x11, high_pc=0x12, language=0x13, discr_value=0x16, visibility=0x17, import_=0x18, string_length=0x19,
           const_value=0x1c, containing_type=0x1d, default_value=0x1e, inline=0x20, is_optional=0x21, lower_bound=0x22,
@@ -33,7 +33,7 @@ FORM = dict(addr=0x01, block2=0x03, block4=0x04, data2=0x05, data4=0x06, data8=0
 ATE = dict(address=1, boolean=2, complex_float=3, float=4, signed=5, signed_char=6, unsigned=7, unsigned_char=8,
            imaginary_float=9, packed_decimal=0xa, numeric_string=0xb, edited=0xc, signed_fixed=0xd, unsigned_fixed=0xe,
            decimal_float=0xf, UTF=0x10, UCS=0x11, ASCII=0x12)
-UT_compile, UT_partial = 1, 3
+UT_compile, UT_type, UT_partial, UT_skeleton = 1, 2, 3, 4
 
 TAG_NAME = {v: k for k, v in TAG.items()}
 AT_NAME = {v: k for k, v in AT.items()}
@@ -150,7 +150,8 @@ class AbbrevTable:
 
 class Unit:
     def __init__(self, root, version=4, abbrevs=None, address_size=8):
-        assert root.tag in (TAG["compile_unit"], TAG["partial_unit"])
+        assert root.tag in (TAG["compile_unit"], TAG["partial_unit"], TAG["type_unit"], TAG["skeleton_unit"])
+        assert version >= 5 or root.tag in (TAG["compile_unit"], TAG["partial_unit"])       # (.debug_types is not written)
         self.root = root
         self.version = version
         self.abbrevs = abbrevs or AbbrevTable()
@@ -163,8 +164,15 @@ class Unit:
     def partial(self):
         return self.root.tag == TAG["partial_unit"]
 
+    @property
+    def unit_type(self):
+        return {TAG["compile_unit"]: UT_compile, TAG["partial_unit"]: UT_partial, TAG["type_unit"]: UT_type,
+                TAG["skeleton_unit"]: UT_skeleton}[self.root.tag]
+
     def header_size(self):
-        return 12 if self.version >= 5 else 11
+        if self.version < 5:
+            return 11
+        return 12 + {UT_type: 12, UT_skeleton: 8}.get(self.unit_type, 0)
 
     def dies(self):
         return list(self.root.walk())
@@ -313,7 +321,13 @@ class Forest:
             body = bytearray()
             self._emit_die(u, u.root, body)
             if u.version >= 5:
-                hdr = struct.pack("<HBBI", u.version, UT_partial if u.partial else UT_compile, u.address_size, u.abbrevs.offset)
+                hdr = struct.pack("<HBBI", u.version, u.unit_type, u.address_size, u.abbrevs.offset)
+                if u.unit_type == UT_type:
+                    # type signature, and the offset (within the unit) of the DIE that is the type: the first child
+                    kid = u.root.children[0].offset - u.offset if u.root.children else 0
+                    hdr += struct.pack("<QI", 0x1122334455660000 + (u.offset & 0xffff), kid)
+                elif u.unit_type == UT_skeleton:
+                    hdr += struct.pack("<Q", 0x0badc0de00000000 + (u.offset & 0xffff))
             else:
                 hdr = struct.pack("<HIB", u.version, u.abbrevs.offset, u.address_size)
             unit = struct.pack("<I", len(hdr) + len(body)) + hdr + body
